@@ -51,7 +51,7 @@ PROPS["C14"] = {
                    "the same log entry 2000 times without blocking (busy loop on a dead session)."),
     "level_note": "Goroutines are attributed by creation site from a runtime stack dump restricted to the run's synctest bubble; sockets are simnet endpoints. CPU use is judged by the spin detector (logging loops) and the orchestrator's watchdog (silent loops), not by timing.",
     "tiers": {
-        "quick": {"runs": 2400, "chunk": 60, "shrink_s": 40},
+        "quick": {"runs": 4000, "chunk": 80, "shrink_s": 40},
         "thorough": {"runs": 30000, "chunk": 100, "shrink_s": 120},
     },
 }
@@ -96,7 +96,7 @@ PROPS["C15"] = {
              "garbage then silent} x endpoint kind {tcp, unix, tcp+tls, ws, wss, udp/KCP, dns+udp, dns+tcp} (87 meaningful cells) is enumerated completely by run index; per run the number "
              "of stallers (1-3), of well-behaved clients (1-3, each a separate client command), their arrival order and every delivery are sampled; non-trivial = every well-behaved "
              "client finished while the stallers stayed connected; distinct = schedule shapes"),
-    "probes": ["stallers_started", "late_arrivals", "fault_staller_host_vanished", "good_clients_served"],
+    "probes": ["stallers_started", "runs_with_a_crowd_of_stallers", "late_arrivals", "fault_staller_host_vanished", "good_clients_served"],
     "technique": "deterministic simulation: enumerated stall faults by scripted peers at every handshake step and endpoint kind, sampled arrivals, bounded-latency oracle for well-behaved clients",
     "level_text": ("Fault enumeration: the finite table of stall points, behaviours and endpoint kinds is covered completely (several runs per cell with different arrivals and counts); each "
                    "well-behaved client must complete handshake and a 1 KiB exchange within 60 simulated seconds of connecting while the stalled peers remain connected."),
@@ -128,9 +128,9 @@ PROPS["C16"] = {
 PROPS["C05"] = {
     "level": "fault_enumeration",
     "exhaustive": True,
-    "cells": 387,
-    "rule": ("the complete matrix {server certificate: trusted+matching, trusted+wrong host, untrusted CA, expired} x {client --insecure on/off} x {client certificate: none, server's CA, foreign CA, impostor CA (same subject name as the server's CA, other key - the case in which a stock TLS client does send the certificate)} x "
-             "{requireClientCert on/off} x carrier {TLS socket, HTTPS websocket, StartTLS over socket / websocket / UDP(KCP) / DNS} (384 cells) plus {equal, different, absent} UDP secrets is "
+    "cells": 579,
+    "rule": ("the complete matrix {server certificate: trusted+matching, trusted+wrong host, untrusted CA, expired, valid for only 200 s more (must be accepted), valid only in 200 s (must be refused)} x {client --insecure on/off} x {client certificate: none, server's CA, foreign CA, impostor CA (same subject name as the server's CA, other key - the case in which a stock TLS client does send the certificate)} x "
+             "{requireClientCert on/off} x carrier {TLS socket, HTTPS websocket, StartTLS over socket / websocket / UDP(KCP) / DNS} (576 cells) plus {equal, different, absent} UDP secrets is "
              "enumerated by run index; per run the upstream is named by host name or IP literal (with a certificate naming exactly that), an unreachable decoy upstream naming another host may be listed first (none / tcp+tls / wss / tcp), and delivery segmentation is sampled; non-trivial = the "
              "cell's outcome matched the admit/reject table; distinct = schedule shapes"),
     "probes": ["admitted_as_expected", "rejected_as_expected"],
@@ -139,8 +139,8 @@ PROPS["C05"] = {
                    "(no requirement or client certificate of the server's CA); UDP admits iff secrets equal. On reject no target may accept a connection or receive a byte; on admit a 64-byte exchange must complete."),
     "level_note": "PKI generated deterministically at worker start for the simulated epoch 2000-01-01; 'expired' is produced by the simulated clock. The documented stdio+tls exception is not part of the matrix.",
     "tiers": {
-        "quick": {"runs": 387 * 8, "chunk": 129, "shrink_s": 30},
-        "thorough": {"runs": 387 * 300, "chunk": 774, "shrink_s": 90},
+        "quick": {"runs": 579 * 6, "chunk": 193, "shrink_s": 30},
+        "thorough": {"runs": 579 * 200, "chunk": 579, "shrink_s": 90},
     },
 }
 
